@@ -213,7 +213,9 @@ CHECKS = {
          "differing bodies rejected (fold invariant); BY CONSTRUCTION every function-call node at any nesting depth has a "
          "FunctionProto of its (domain, name) (C14_every_call_has_a_definition); imports cover "
          "body requirements; call_means_body (the FunctionProto body is a checked linearisation of the body graph, so C01's theorem "
-         "applies to it, any nesting). CORRESPONDENCE: exact rendering incl. every FunctionProto. ORACLE: onnxruntime vs numpy "
+         "applies to it, any nesting); C14_call_means_body_for_legal_bodies: the same WITHOUT the validator - well-formedness of every "
+         "function body's plan proved from the build algorithm at any depth of function nesting (FunInd), premise = decidable legality "
+         "of the body's object graph, evaluated on every generated function. CORRESPONDENCE: exact rendering incl. every FunctionProto. ORACLE: onnxruntime vs numpy "
          "evaluation with calls evaluated through their Python body; function keys; varying bodies must raise.",
     note=TB + "Assumed: onnxruntime executes FunctionProtos as inlined bodies. Bodies closed over their parameters.",
     technique="Coq proof + exact correspondence + ORT-vs-numpy oracle",
